@@ -98,3 +98,8 @@ Definition spec_web (nreq : nat) (o : term) : bool :=
 (* ---- command line ---- *)
 Definition spec_cli (o : term) : bool :=
   match o with TL [out] => ok_or_error out | _ => false end.
+
+(* ---- symbolization mode ----
+   observable: TL [outcome; number of "unrecognized option" messages; demangler mode seen in the names] *)
+Definition spec_symmode (o : term) : bool :=
+  match o with TL (out :: _) => ok_or_error out | _ => false end.
